@@ -30,6 +30,16 @@
 //!  * `repair <variant> <seed>`     oracle only: as `repo`, then a seeded subset of index files (variant all|some|none +
 //!       optional `-readall`) is deleted, `repair_index` runs, then `check` must be clean and every snapshot must read
 //!       back identically.
+//!       Variant grammar `[hc-][dry-]<all|some|none|badhint|lostpack>[-readall]`: `hc-` = on a hot/cold pair of `MemBackend`s (the hot part
+//!       holds only what `HotColdBackend` puts there), `dry-` = `repair_index(opts, dry_run = true)` first, which must leave every file
+//!       of every type in both parts byte-identical (`oracle-fail:dry-run-changed-storage:<part>-<type>`); `lostpack` = a data pack is
+//!       removed from storage (then only packs = index is required afterwards).  Every run records the `cacheable` flag of the
+//!       `read_partial` calls: header reads of data packs must be non-cacheable (`oracle-fail:data-pack-header-read-cacheable`).
+//!  * `rixd <0|1> <packs> <files>`  as `rix`, but a DRY RUN comes first (storage must stay byte-identical), then the real run
+//!       -> `ok chk=<ok|err> <listings after the dry run> / <listings after the real run>` (model: `repairIndexD true`, then
+//!       `repairIndexD false`; `chk` = whether `to_indexed_checked` succeeds on the damaged store, model `checkedPacks`).
+//!  * `cflags <seed>`               the `cacheable` flags of header reads and blob reads per pack type, observed on a repository
+//!       (2/3 hot/cold) that lost all index files -> `ok hdr=t0d0 blob=t1d0` (model: `headerReadCacheable` / `blobReadCacheable`).
 //!  * `pw <dlimit> <tlimit> <fail|-> <adds>`  correspondence for the pack-WRITER model (`Model/PackWriter.lean`): adds =
 //!       `<t|d><len>[x<count>]` joined by `,` (count distinct blobs of `len` plaintext bytes, ids = running number); the real
 //!       packer pipeline (hook `pack_blobs`: data `Packer` + tree `Packer` + shared `Indexer`) runs on a repository without
@@ -61,7 +71,7 @@ use rustic_core::verif::decrypt::{DecryptBackend, DecryptReadBackend, DecryptWri
 use rustic_core::verif::packer::{BasicPackerHook, PackSizer};
 use rustic_core::verif::packfile as pf;
 use rustic_core::{
-    BackupOptions, BlobId, CheckOptions, ConfigOptions, FileType, Id, LimitOption, PruneOptions,
+    BackupOptions, BlobId, ConfigOptions, FileType, Id, LimitOption, PruneOptions,
     RepairIndexOptions, SnapshotOptions, WriteBackend,
 };
 
@@ -214,6 +224,79 @@ fn rand_ulen(rng: &mut Rng) -> Option<u32> {
         4 => Some(u32::MAX),
         _ => Some(1 + rng.below(1 << 20) as u32),
     }
+}
+
+/// One crafted store for the `repair_index` model correspondence (`rix` / `rixd`): `<read_all> <packs> <index files>`.
+fn gen_rix_case(rng: &mut Rng, stats: &mut Stats) -> String {
+    let np = rng.below(6) as usize;
+    let labels: Vec<String> = (0..np).map(|i| ((b'a' + i as u8) as char).to_string()).collect();
+    let mut packs = Vec::new();
+    let mut nblobs = Vec::new();
+    for l in &labels {
+        let t = if rng.chance(1, 2) { 't' } else { 'd' };
+        let n = rng.below(4);
+        let mut adds = Vec::new();
+        for _ in 0..n {
+            let ul = rand_ulen(rng).map_or("-".to_string(), |u| u.to_string());
+            adds.push(format!("{}.{}.{ul}", hex::encode(rand_id_distinct(rng)), rng.below(300)));
+        }
+        nblobs.push(n);
+        let flag = if rng.chance(1, 6) { "trunc" } else { "ok" };
+        stats.hit(format!("rix.pack.{flag}"));
+        packs.push(format!("{l}:{t}:{}:{flag}", if adds.is_empty() { "-".to_string() } else { adds.join("+") }));
+    }
+    // listings: a label is either listed (un)marked in exactly one place, or several times but then always unmarked,
+    // or not at all (index file lost) — results that depend on the streaming order of index files are not generated
+    let nf = 1 + rng.below(3) as usize;
+    let mut fl: Vec<(Vec<String>, Vec<String>)> = vec![(vec![], vec![]); nf];
+    for (i, l) in labels.iter().enumerate() {
+        let variant = |rng: &mut Rng| if nblobs[i] > 0 && rng.chance(1, 4) { format!("{l}~") } else { l.clone() };
+        match rng.below(8) {
+            0 | 1 => stats.hit("rix.unlisted"),
+            2 => {
+                stats.hit("rix.marked");
+                let k = rng.below(nf as u64) as usize;
+                let v = variant(rng);
+                fl[k].1.push(v);
+            }
+            3 => {
+                stats.hit("rix.listed-twice");
+                for _ in 0..2 {
+                    let k = rng.below(nf as u64) as usize;
+                    let v = variant(rng);
+                    fl[k].0.push(v);
+                }
+            }
+            _ => {
+                let k = rng.below(nf as u64) as usize;
+                let v = variant(rng);
+                fl[k].0.push(v);
+            }
+        }
+    }
+    if rng.chance(1, 3) {
+        stats.hit("rix.nonexistent-pack");
+        let k = rng.below(nf as u64) as usize;
+        let e = format!("?{}", 1 + rng.below(3));
+        if rng.chance(1, 2) { fl[k].0.push(e) } else { fl[k].1.push(e) }
+    }
+    let mut toks: Vec<String> = Vec::new();
+    for (a, b) in fl {
+        if a.is_empty() && b.is_empty() {
+            continue;
+        }
+        let j = |v: Vec<String>| if v.is_empty() { "-".to_string() } else { v.join(",") };
+        let t = format!("{}|{}", j(a), j(b));
+        if !toks.contains(&t) {
+            toks.push(t);
+        }
+    }
+    let ra = u8::from(rng.chance(1, 4));
+    format!(
+        "{ra} {} {}",
+        if packs.is_empty() { "-".to_string() } else { packs.join(";") },
+        if toks.is_empty() { "-".to_string() } else { toks.join("/") }
+    )
 }
 
 pub fn generate(thorough: bool, rng: &mut Rng, ops: &mut Vec<String>, stats: &mut Stats) {
@@ -436,75 +519,8 @@ pub fn generate(thorough: bool, rng: &mut Rng, ops: &mut Vec<String>, stats: &mu
     }
     // --- repair_index model correspondence
     for _ in 0..(if thorough { 600 } else { 60 }) {
-        let np = rng.below(6) as usize;
-        let labels: Vec<String> = (0..np).map(|i| ((b'a' + i as u8) as char).to_string()).collect();
-        let mut packs = Vec::new();
-        let mut nblobs = Vec::new();
-        for l in &labels {
-            let t = if rng.chance(1, 2) { 't' } else { 'd' };
-            let n = rng.below(4);
-            let mut adds = Vec::new();
-            for _ in 0..n {
-                let ul = rand_ulen(rng).map_or("-".to_string(), |u| u.to_string());
-                adds.push(format!("{}.{}.{ul}", hex::encode(rand_id_distinct(rng)), rng.below(300)));
-            }
-            nblobs.push(n);
-            let flag = if rng.chance(1, 6) { "trunc" } else { "ok" };
-            stats.hit(format!("rix.pack.{flag}"));
-            packs.push(format!("{l}:{t}:{}:{flag}", if adds.is_empty() { "-".to_string() } else { adds.join("+") }));
-        }
-        // listings: a label is either listed (un)marked in exactly one place, or several times but then always unmarked,
-        // or not at all (index file lost) — results that depend on the streaming order of index files are not generated
-        let nf = 1 + rng.below(3) as usize;
-        let mut fl: Vec<(Vec<String>, Vec<String>)> = vec![(vec![], vec![]); nf];
-        for (i, l) in labels.iter().enumerate() {
-            let variant = |rng: &mut Rng| if nblobs[i] > 0 && rng.chance(1, 4) { format!("{l}~") } else { l.clone() };
-            match rng.below(8) {
-                0 | 1 => stats.hit("rix.unlisted"),
-                2 => {
-                    stats.hit("rix.marked");
-                    let k = rng.below(nf as u64) as usize;
-                    let v = variant(rng);
-                    fl[k].1.push(v);
-                }
-                3 => {
-                    stats.hit("rix.listed-twice");
-                    for _ in 0..2 {
-                        let k = rng.below(nf as u64) as usize;
-                        let v = variant(rng);
-                        fl[k].0.push(v);
-                    }
-                }
-                _ => {
-                    let k = rng.below(nf as u64) as usize;
-                    let v = variant(rng);
-                    fl[k].0.push(v);
-                }
-            }
-        }
-        if rng.chance(1, 3) {
-            stats.hit("rix.nonexistent-pack");
-            let k = rng.below(nf as u64) as usize;
-            let e = format!("?{}", 1 + rng.below(3));
-            if rng.chance(1, 2) { fl[k].0.push(e) } else { fl[k].1.push(e) }
-        }
-        let mut toks: Vec<String> = Vec::new();
-        for (a, b) in fl {
-            if a.is_empty() && b.is_empty() {
-                continue;
-            }
-            let j = |v: Vec<String>| if v.is_empty() { "-".to_string() } else { v.join(",") };
-            let t = format!("{}|{}", j(a), j(b));
-            if !toks.contains(&t) {
-                toks.push(t);
-            }
-        }
-        let ra = u8::from(rng.chance(1, 4));
-        ops.push(format!(
-            "c08 rix {ra} {} {}",
-            if packs.is_empty() { "-".to_string() } else { packs.join(";") },
-            if toks.is_empty() { "-".to_string() } else { toks.join("/") }
-        ));
+        let c = gen_rix_case(rng, stats);
+        ops.push(format!("c08 rix {c}"));
     }
     // --- repositories
     let variants = ["backup", "prune-fast", "prune-copy", "prune-all", "copy", "merge", "rewrite", "repair-snapshots"];
@@ -577,6 +593,29 @@ pub fn generate(thorough: bool, rng: &mut Rng, ops: &mut Vec<String>, stats: &mu
         let v = rv[i % rv.len()];
         stats.hit(format!("repair.{v}"));
         ops.push(format!("c08 repair {v} {}", rng.below(1 << 40)));
+    }
+    // --- round 3: the same repair oracle on a hot/cold pair of stores (`hc-`), with a dry run first (`dry-`), with a data pack
+    // lost from storage (`lostpack`); the dry-run variant of the model correspondence (`rixd`); the `cacheable` rule (`cflags`)
+    let rv3 = [
+        "hc-all", "hc-some", "hc-none-readall", "hc-all-readall", "hc-some-readall", "hc-badhint", "hc-lostpack", "hc-none",
+        "dry-all", "dry-some", "dry-none", "dry-all-readall", "dry-none-readall", "dry-some-readall", "dry-lostpack", "dry-lostpack-readall", "dry-badhint",
+        "hc-dry-all", "hc-dry-all-readall", "hc-dry-none-readall", "hc-dry-lostpack", "hc-dry-some", "hc-dry-badhint",
+        "lostpack", "lostpack-readall",
+    ];
+    for _ in 0..(if thorough { 4 } else { 1 }) {
+        for v in rv3 {
+            stats.hit(format!("repair.{v}"));
+            ops.push(format!("c08 repair {v} {}", rng.below(1 << 40)));
+        }
+    }
+    for _ in 0..(if thorough { 400 } else { 50 }) {
+        let c = gen_rix_case(rng, stats);
+        stats.hit(if c.starts_with('1') { "rixd.read-all" } else { "rixd.default" });
+        ops.push(format!("c08 rixd {c}"));
+    }
+    for _ in 0..(if thorough { 24 } else { 4 }) {
+        stats.hit("cflags");
+        ops.push(format!("c08 cflags {}", rng.below(1 << 40)));
     }
 }
 
@@ -1063,8 +1102,14 @@ fn build(rng: &mut Rng, variant: &str) -> Result<Scenario, String> {
 
 /// `be2` is the backend of the target repository of the `copy` variant.
 fn build_on(be: MemBackend, be2: MemBackend, rng: &mut Rng, variant: &str) -> Result<Scenario, String> {
+    build_hc(be, None, be2, rng, variant)
+}
+
+/// As `build_on`; with `hot = Some(..)` the repository is a hot/cold pair (`be` = cold part): the hot part receives only what
+/// `HotColdBackend` puts there (tree packs, index, snapshot and key files, the hot config).
+fn build_hc(be: MemBackend, hot: Option<MemBackend>, be2: MemBackend, rng: &mut Rng, variant: &str) -> Result<Scenario, String> {
     let cfg = config_for(rng);
-    let (h, _repo) = RepoHandle::init_nocache(be, None, &cfg).map_err(|e| errkind(&e))?;
+    let (h, _repo) = RepoHandle::init_nocache(be, hot, &cfg).map_err(|e| errkind(&e))?;
     let max_len = 60_000;
     let mut snaps = Vec::new();
     let n_files = 4 + rng.below(8) as usize;
@@ -1228,6 +1273,20 @@ fn read_all(sc: &Scenario) -> Result<(), String> {
     Ok(())
 }
 
+/// As `read_all`, but through `to_indexed_checked()`: the index is compared with the pack files while it is loaded, packs that are
+/// not (or wrongly) listed get their header read (`index_checked_from_collector`) — the in-memory form of "rebuild the index from
+/// the packs".  A pure read: nothing may be written.
+fn read_all_checked(sc: &Scenario) -> Result<(), String> {
+    let repo = sc.h.open_nocache().map_err(|e| errkind(&e))?.to_indexed_checked().map_err(|_| "oracle-fail:to-indexed-checked-fails".to_string())?;
+    for (s, want) in &sc.snaps {
+        let got = repo::read_back(&repo, s).map_err(|_| "oracle-fail:snapshot-unreadable-with-checked-index".to_string())?;
+        if &got != want {
+            return Err("oracle-fail:snapshot-content-with-checked-index".into());
+        }
+    }
+    Ok(())
+}
+
 fn exec_repo(variant: &str, seed: u64) -> String {
     let mut rng = Rng::new(seed);
     let sc = match build(&mut rng, variant) {
@@ -1367,17 +1426,134 @@ fn exec_repair_fullpack(rng: &mut Rng, readall: bool) -> String {
     "ok".into()
 }
 
+/// pack id -> "is a tree pack" (type of the first blob), over `packs` and `packs_to_delete` of every index file
+fn pack_types(h: &RepoHandle) -> Result<BTreeMap<Id, bool>, String> {
+    let repo = h.open_nocache().map_err(|e| errkind(&e))?;
+    let dbe = rustic_core::verif::repository::dbe(&repo);
+    let mut m = BTreeMap::new();
+    for id in h.be.ids(FileType::Index) {
+        let f: IndexFile = dbe.get_file(&rustic_core::repofile::IndexId::from(id)).map_err(|e| errkind(&e))?;
+        for p in f.packs.iter().chain(f.packs_to_delete.iter()) {
+            _ = m.insert(Id::from(*p.id), p.blob_type() == BlobType::Tree);
+        }
+    }
+    Ok(m)
+}
+
+/// the recorded `read_partial` calls of both parts since the last call (hot part first)
+fn take_pack_reads(h: &RepoHandle) -> Vec<repo::PRead> {
+    let mut v = h.hot.as_ref().map_or_else(Vec::new, MemBackend::take_preads);
+    v.extend(h.be.take_preads());
+    v.retain(|r| r.tpe == FileType::Pack);
+    v
+}
+
+/// Rule of `Model/Pack.lean headerReadCacheable`: the ranged reads of `PackHeader::from_file` (all pack reads `repair_index`
+/// makes) pass `cacheable = false` — for a DATA pack anything else sends the read to the hot part of a hot/cold repository,
+/// which holds no data pack (property failure); for a tree pack it is only a deviation from the model (`differs:`).
+fn header_reads_rule(reads: &[repo::PRead], types: &BTreeMap<Id, bool>) -> Result<(), String> {
+    // a pack the intact index does not know counts as a data pack
+    if reads.iter().any(|r| r.cacheable && types.get(&r.id) != Some(&true)) {
+        return Err("oracle-fail:data-pack-header-read-cacheable".into());
+    }
+    if reads.iter().any(|r| r.cacheable) {
+        return Err("differs:tree-pack-header-read-cacheable".into());
+    }
+    Ok(())
+}
+
+/// Rule of `Model/Pack.lean blobReadCacheable`: blob reads pass `cacheable = BlobType::is_cacheable()` = "is a tree blob".
+fn blob_reads_rule(reads: &[repo::PRead], types: &BTreeMap<Id, bool>) -> Result<(), String> {
+    for r in reads {
+        match types.get(&r.id) {
+            Some(false) if r.cacheable => return Err("oracle-fail:data-blob-read-cacheable".into()),
+            Some(true) if !r.cacheable => return Err("differs:tree-blob-read-not-cacheable".into()),
+            _ => {}
+        }
+    }
+    Ok(())
+}
+
+/// the complete content of the store(s): cold part, hot part
+fn stores_of(h: &RepoHandle) -> (repo::Store, Option<repo::Store>) {
+    (h.be.store(), h.hot.as_ref().map(MemBackend::store))
+}
+
+/// `None` if both snapshots hold byte-identical file sets of every file type, else `<part>-<file type>` of the first difference
+fn stores_diff(a: &(repo::Store, Option<repo::Store>), b: &(repo::Store, Option<repo::Store>)) -> Option<String> {
+    let part = |x: &repo::Store, y: &repo::Store, name: &str| -> Option<String> {
+        for t in repo::FILE_TYPES {
+            let k = repo::ft_idx(t);
+            let fx: Vec<_> = x.iter().filter(|((u, _), _)| *u == k).collect();
+            let fy: Vec<_> = y.iter().filter(|((u, _), _)| *u == k).collect();
+            if fx != fy {
+                return Some(format!("{name}-{}", repo::ft_name(t)));
+            }
+        }
+        None
+    };
+    if let Some(d) = part(&a.0, &b.0, if a.1.is_some() { "cold" } else { "store" }) {
+        return Some(d);
+    }
+    match (&a.1, &b.1) {
+        (Some(x), Some(y)) => part(x, y, "hot"),
+        (None, None) => None,
+        _ => Some("hot-part".into()),
+    }
+}
+
+/// "packs = index": the pack files in the (cold) store are exactly the packs the index files list (marked or not); on a hot/cold
+/// pair both parts hold the same index files.
+fn packs_eq_index(h: &RepoHandle) -> Result<(), String> {
+    let listed: BTreeSet<Id> = pack_types(h)?.keys().copied().collect();
+    let stored: BTreeSet<Id> = h.be.ids(FileType::Pack).into_iter().collect();
+    if let Some(hot) = &h.hot {
+        if hot.ids(FileType::Index) != h.be.ids(FileType::Index) {
+            return Err("oracle-fail:hot-and-cold-index-files-differ".into());
+        }
+    }
+    if stored.iter().any(|p| !listed.contains(p)) {
+        return Err("oracle-fail:stored-pack-not-listed".into());
+    }
+    if listed.iter().any(|p| !stored.contains(p)) {
+        return Err("oracle-fail:listed-pack-not-stored".into());
+    }
+    Ok(())
+}
+
+fn del_index(h: &RepoHandle, id: &Id) {
+    h.be.del_raw(FileType::Index, id);
+    if let Some(hot) = &h.hot {
+        hot.del_raw(FileType::Index, id);
+    }
+}
+
+/// `repair [hc-][dry-]<which>[-readall] <seed>`: `hc-` = the repository is a hot/cold pair of `MemBackend`s, `dry-` = a dry run of
+/// `repair_index` comes first and must leave every file of every type, in both parts, byte-identical; which = all | some | none
+/// (index files removed) | badhint | lostpack (a data pack removed from storage: afterwards only packs = index is required).
 fn exec_repair(variant: &str, seed: u64) -> String {
     let mut rng = Rng::new(seed);
-    let (which, readall) = match variant.strip_suffix("-readall") {
-        Some(w) => (w, true),
+    let (v1, hc) = match variant.strip_prefix("hc-") {
+        Some(v) => (v, true),
         None => (variant, false),
     };
+    let (v2, dry) = match v1.strip_prefix("dry-") {
+        Some(v) => (v, true),
+        None => (v1, false),
+    };
+    let (which, readall) = match v2.strip_suffix("-readall") {
+        Some(w) => (w, true),
+        None => (v2, false),
+    };
     if which == "fullpack" {
+        if hc || dry {
+            return "bad-op".into();
+        }
         return exec_repair_fullpack(&mut rng, readall);
     }
     let scen = *rng.pick(&["backup", "prune-fast", "prune-copy", "prune-all"]);
-    let sc = match build(&mut rng, scen) {
+    let hot = if hc { Some(MemBackend::named("hot")) } else { None };
+    let sc = match build_hc(MemBackend::named(if hc { "cold" } else { "mem" }), hot, MemBackend::new(), &mut rng, scen) {
         Ok(s) => s,
         Err(e) => return e,
     };
@@ -1410,6 +1586,17 @@ fn exec_repair(variant: &str, seed: u64) -> String {
             break;
         }
     }
+    if hc {
+        // the set-up itself: data packs live in the cold part only (nothing is copied into the hot part by the harness)
+        let types = match pack_types(&sc.h) {
+            Ok(t) => t,
+            Err(e) => return e,
+        };
+        let hot_packs: BTreeSet<Id> = sc.h.hot.as_ref().map(|b| b.ids(FileType::Pack).into_iter().collect()).unwrap_or_default();
+        if hot_packs.iter().any(|p| types.get(p) == Some(&false)) {
+            return "oracle-fail:setup-hot-part-holds-data-packs".into();
+        }
+    }
     let idx = sc.h.be.ids(FileType::Index);
     if which == "badhint" {
         // One index file listing every pack; the entry of the smallest pack is inflated with repeated blobs so that the
@@ -1440,48 +1627,202 @@ fn exec_repair(variant: &str, seed: u64) -> String {
         }
         all.packs[k].size = None;
         for v in &idx {
-            sc.h.be.del_raw(FileType::Index, v);
+            del_index(&sc.h, v);
         }
         if let Err(e) = dbe.save_file(&all) {
             return errkind(&e);
         }
     }
+    // pack types as the intact index has them (before the damage)
+    let types = match pack_types(&sc.h) {
+        Ok(t) => t,
+        Err(e) => return e,
+    };
     let victims: BTreeSet<Id> = match which {
-        "badhint" => BTreeSet::new(),
+        "badhint" | "none" | "lostpack" => BTreeSet::new(),
         "all" => idx.iter().copied().collect(),
-        "none" => BTreeSet::new(),
         "some" => idx.iter().copied().filter(|_| rng.chance(1, 2)).collect(),
         _ => return "bad-op".into(),
     };
     for v in &victims {
-        sc.h.be.del_raw(FileType::Index, v);
+        del_index(&sc.h, v);
     }
+    if which == "lostpack" {
+        // a data pack disappears from storage (its index entry stays): the repair must drop the entry
+        let data: Vec<Id> = sc.h.be.ids(FileType::Pack).into_iter().filter(|p| types.get(p) == Some(&false)).collect();
+        if data.is_empty() {
+            return "ok".into(); // only empty files were backed up: nothing to lose
+        }
+        let victim = *rng.pick(&data);
+        sc.h.be.del_raw(FileType::Pack, &victim);
+        if let Some(hot) = &sc.h.hot {
+            hot.del_raw(FileType::Pack, &victim);
+        }
+    }
+    // before any repair: the damaged index is healed in memory by `to_indexed_checked` (headers of unlisted / wrongly listed packs are
+    // read) — every snapshot reads back through it, the reads obey the header rule, and nothing is written
+    if which != "lostpack" {
+        let before = stores_of(&sc.h);
+        _ = take_pack_reads(&sc.h);
+        let res = read_all_checked(&sc);
+        // blob reads are in the record too: the header rule is evaluated on the reads of the pack TRAILER only
+        let reads: Vec<repo::PRead> = take_pack_reads(&sc.h)
+            .into_iter()
+            .filter(|r| sc.h.be.get(FileType::Pack, &r.id).is_some_and(|b| u64::from(r.offset) + u64::from(r.length) + 4 >= b.len() as u64 && types.get(&r.id) == Some(&false)))
+            .collect();
+        if let Err(e) = header_reads_rule(&reads, &types) {
+            return e;
+        }
+        if let Err(e) = res {
+            return e;
+        }
+        if let Some(d) = stores_diff(&before, &stores_of(&sc.h)) {
+            return format!("oracle-fail:checked-index-load-changed-storage:{d}");
+        }
+    }
+    let opts = RepairIndexOptions::default().read_all(readall);
+    let mut dry_reads: Option<BTreeSet<Id>> = None;
+    if dry {
+        // a dry run first: it reads (index files, pack headers) but must not change a single file of any type in any part
+        let before = stores_of(&sc.h);
+        _ = take_pack_reads(&sc.h);
+        {
+            let repo = match sc.h.open_nocache() {
+                Ok(r) => r,
+                Err(e) => return errkind(&e),
+            };
+            if let Err(e) = repo.repair_index(&opts, true) {
+                return errkind(&e);
+            }
+        }
+        let reads = take_pack_reads(&sc.h);
+        if let Err(e) = header_reads_rule(&reads, &types) {
+            return e;
+        }
+        if let Some(d) = stores_diff(&before, &stores_of(&sc.h)) {
+            return format!("oracle-fail:dry-run-changed-storage:{d}");
+        }
+        dry_reads = Some(reads.iter().map(|r| r.id).collect());
+    }
+    _ = take_pack_reads(&sc.h);
     {
         let repo = match sc.h.open_nocache() {
             Ok(r) => r,
             Err(e) => return errkind(&e),
         };
-        let opts = RepairIndexOptions::default().read_all(readall);
         if let Err(e) = repo.repair_index(&opts, false) {
             return errkind(&e);
         }
     }
-    match repo::check_errors_nocache(&sc.h, true) {
+    let reads = take_pack_reads(&sc.h);
+    if let Err(e) = header_reads_rule(&reads, &types) {
+        return e;
+    }
+    // theorem `dry_run_reads_same_headers`: the dry run read the headers of exactly the packs the real run reads
+    if dry_reads.is_some_and(|d| d != reads.iter().map(|r| r.id).collect::<BTreeSet<Id>>()) {
+        return "differs:dry-run-read-other-pack-headers".into();
+    }
+    // packs = index: every stored pack is listed (again), nothing else is
+    if let Err(e) = packs_eq_index(&sc.h) {
+        return e;
+    }
+    if which == "lostpack" {
+        // snapshots using the lost pack are damaged for good; what must hold is pack / index agreement
+        if let Err(e) = verify_packs(&sc.h) {
+            return e;
+        }
+        return "ok".into();
+    }
+    // `check --read-data` reads whole packs with `read_full`, which a hot/cold backend always sends to the hot part (open known
+    // finding of C16, DESIGN §7 #15): on a hot/cold pair the check runs without it; every blob is read by the read-back below
+    match repo::check_errors_nocache(&sc.h, !hc) {
         Some(0) => {}
         Some(_) => return "oracle-fail:check-after-repair".into(),
         None => return "oracle-fail:check-failed-to-run".into(),
     }
+    _ = take_pack_reads(&sc.h);
     if let Err(e) = read_all(&sc) {
+        return e;
+    }
+    let types_after = match pack_types(&sc.h) {
+        Ok(t) => t,
+        Err(e) => return e,
+    };
+    if let Err(e) = blob_reads_rule(&take_pack_reads(&sc.h), &types_after) {
         return e;
     }
     if let Err(e) = verify_packs(&sc.h) {
         return e;
     }
-    let _ = CheckOptions::default();
     "ok".into()
 }
 
-fn exec_rix(read_all: bool, packs: &str, files: &str) -> String {
+/// `cflags <seed>`: correspondence for the `cacheable` rule of ranged pack reads (`Model/Pack.lean headerReadCacheable` /
+/// `blobReadCacheable`).  A repository (hot/cold pair or single store, seeded) with tree and data packs loses all index files;
+/// `repair_index` reads every pack header, then every snapshot is read back (every blob).  Observation: the set of `cacheable`
+/// flags seen per pack type -> `ok hdr=t<flags>d<flags> blob=t<flags>d<flags>` (flags = the distinct values `0`/`1`, sorted).
+fn exec_cflags(seed: u64) -> String {
+    let mut rng = Rng::new(seed);
+    let hc = rng.chance(2, 3);
+    let hot = if hc { Some(MemBackend::named("hot")) } else { None };
+    let cfg = config_for(&mut rng);
+    let (h, _repo) = match RepoHandle::init_nocache(MemBackend::named("cold"), hot, &cfg) {
+        Ok(x) => x,
+        Err(e) => return errkind(&e),
+    };
+    let mut sc = Scenario { h, snaps: vec![] };
+    let nf = 2 + rng.below(4) as usize;
+    let mut src = gen_source(&mut rng, nf, 30_000);
+    src = MemSource::new(src.entries.into_iter().chain([SrcEntry::file(&[b"d9", b"never-empty"], &rng.bytes(5_000))]).collect());
+    for i in 0..1 + rng.below(2) {
+        let snap = match SnapshotOptions::default().to_snapshot() {
+            Ok(s) => s,
+            Err(e) => return errkind(&e),
+        };
+        match repo::backup_nocache(&sc.h, &src, &BackupOptions::default(), snap) {
+            Ok(s) => sc.snaps.push((s, expected_with_root(&src))),
+            Err(e) => return errkind(&e),
+        }
+        src = mutate_source(&mut rng, &src, 30_000, i);
+    }
+    let types = match pack_types(&sc.h) {
+        Ok(t) => t,
+        Err(e) => return e,
+    };
+    for id in sc.h.be.ids(FileType::Index) {
+        del_index(&sc.h, &id);
+    }
+    _ = take_pack_reads(&sc.h);
+    {
+        let repo = match sc.h.open_nocache() {
+            Ok(r) => r,
+            Err(e) => return errkind(&e),
+        };
+        if let Err(e) = repo.repair_index(&RepairIndexOptions::default().read_all(rng.chance(1, 2)), false) {
+            return errkind(&e);
+        }
+    }
+    let flags = |reads: &[repo::PRead], tree: bool| -> String {
+        let s: BTreeSet<&str> = reads.iter().filter(|r| types.get(&r.id) == Some(&tree)).map(|r| if r.cacheable { "1" } else { "0" }).collect();
+        s.into_iter().collect::<Vec<_>>().join("")
+    };
+    let hdr = take_pack_reads(&sc.h);
+    let (ht, hd) = (flags(&hdr, true), flags(&hdr, false));
+    if hd.contains('1') {
+        return "oracle-fail:data-pack-header-read-cacheable".into();
+    }
+    if let Err(e) = packs_eq_index(&sc.h) {
+        return e;
+    }
+    _ = take_pack_reads(&sc.h);
+    if let Err(e) = read_all(&sc) {
+        return e;
+    }
+    let blob = take_pack_reads(&sc.h);
+    format!("ok hdr=t{ht}d{hd} blob=t{}d{}", flags(&blob, true), flags(&blob, false))
+}
+
+fn exec_rix(read_all: bool, packs: &str, files: &str, dry_first: bool) -> String {
     let (h, repo) = match RepoHandle::init_nocache(MemBackend::new(), None, &ConfigOptions::default()) {
         Ok(x) => x,
         Err(e) => return errkind(&e),
@@ -1597,37 +1938,84 @@ fn exec_rix(read_all: bool, packs: &str, files: &str) -> String {
         }
     }
     drop(repo);
-    let repo = match h.open_nocache() {
-        Ok(r) => r,
-        Err(e) => return errkind(&e),
-    };
-    if let Err(e) = repo.repair_index(&RepairIndexOptions::default().read_all(read_all), false) {
-        return errkind(&e);
-    }
-    let dbe = rustic_core::verif::repository::dbe(&repo);
-    let mut counts: Vec<(usize, usize, bool)> = vec![(0, 0, true); ps.len()];
-    let mut unknown = 0usize;
-    for id in h.be.ids(FileType::Index) {
-        let f: IndexFile = match dbe.get_file(&rustic_core::repofile::IndexId::from(id)) {
-            Ok(f) => f,
-            Err(e) => return errkind(&e),
-        };
-        for (p, marked) in f.packs.iter().map(|p| (p, false)).chain(f.packs_to_delete.iter().map(|p| (p, true))) {
-            match ps.iter().position(|q| q.id == Id::from(*p.id)) {
-                None => unknown += 1,
-                Some(k) => {
-                    if marked {
-                        counts[k].1 += 1;
-                    } else {
-                        counts[k].0 += 1;
+    // the listings of every label in the index files as they are now
+    let observe = |h: &RepoHandle| -> Result<String, String> {
+        let repo = h.open_nocache().map_err(|e| errkind(&e))?;
+        let dbe = rustic_core::verif::repository::dbe(&repo);
+        let mut counts: Vec<(usize, usize, bool)> = vec![(0, 0, true); ps.len()];
+        let mut unknown = 0usize;
+        for id in h.be.ids(FileType::Index) {
+            let f: IndexFile = dbe.get_file(&rustic_core::repofile::IndexId::from(id)).map_err(|e| errkind(&e))?;
+            for (p, marked) in f.packs.iter().map(|p| (p, false)).chain(f.packs_to_delete.iter().map(|p| (p, true))) {
+                match ps.iter().position(|q| q.id == Id::from(*p.id)) {
+                    None => unknown += 1,
+                    Some(k) => {
+                        if marked {
+                            counts[k].1 += 1;
+                        } else {
+                            counts[k].0 += 1;
+                        }
+                        counts[k].2 &= same_blobs(&p.blobs, &ps[k].blobs);
                     }
-                    counts[k].2 &= same_blobs(&p.blobs, &ps[k].blobs);
                 }
             }
         }
+        let v: Vec<String> = ps.iter().zip(&counts).map(|(p, c)| format!("{}:u{}m{}{}", p.label, c.0, c.1, if c.2 { "=" } else { "x" })).collect();
+        Ok(format!("{} ?{unknown}", if v.is_empty() { "-".to_string() } else { v.join(",") }))
+    };
+    let mut out = String::from("ok ");
+    let mut dry_reads: Option<BTreeSet<Id>> = None;
+    if dry_first {
+        // `rixd`: a dry run first — no file of any type may change; its observation is the index as it is afterwards
+        let before = stores_of(&h);
+        // `chk`: the in-memory rebuild `to_indexed_checked` (model `checkedPacks`): fails iff a header it needs is unreadable; a pure read
+        let chk = match h.open_nocache() {
+            Ok(r) => r.to_indexed_checked().is_ok(),
+            Err(e) => return errkind(&e),
+        };
+        out.push_str(if chk { "chk=ok " } else { "chk=err " });
+        _ = take_pack_reads(&h);
+        {
+            let repo = match h.open_nocache() {
+                Ok(r) => r,
+                Err(e) => return errkind(&e),
+            };
+            if let Err(e) = repo.repair_index(&RepairIndexOptions::default().read_all(read_all), true) {
+                return errkind(&e);
+            }
+        }
+        if let Some(d) = stores_diff(&before, &stores_of(&h)) {
+            return format!("oracle-fail:dry-run-changed-storage:{d}");
+        }
+        dry_reads = Some(take_pack_reads(&h).iter().map(|r| r.id).collect());
+        match observe(&h) {
+            Ok(o) => out.push_str(&format!("{o} / ")),
+            Err(e) => return e,
+        }
     }
-    let v: Vec<String> = ps.iter().zip(&counts).map(|(p, c)| format!("{}:u{}m{}{}", p.label, c.0, c.1, if c.2 { "=" } else { "x" })).collect();
-    format!("ok {} ?{unknown}", if v.is_empty() { "-".to_string() } else { v.join(",") })
+    _ = take_pack_reads(&h);
+    {
+        let repo = match h.open_nocache() {
+            Ok(r) => r,
+            Err(e) => return errkind(&e),
+        };
+        if let Err(e) = repo.repair_index(&RepairIndexOptions::default().read_all(read_all), false) {
+            return errkind(&e);
+        }
+    }
+    // theorem `dry_run_reads_same_headers` — for a fixed order of the index files; the code streams them in no fixed order, and for a
+    // pack listed in two files (`a~|-/a|-`) it depends on the order whether its header is read: compared only without such packs
+    let mut labels: Vec<&str> = files.split(['/', '|', ',']).map(|e| e.trim_end_matches('~')).filter(|e| *e != "-" && !e.starts_with('?')).collect();
+    labels.sort_unstable();
+    let listed_twice = labels.windows(2).any(|w| w[0] == w[1]);
+    if !listed_twice && dry_reads.is_some_and(|d| d != take_pack_reads(&h).iter().map(|r| r.id).collect::<BTreeSet<Id>>()) {
+        return "differs:dry-run-read-other-pack-headers".into();
+    }
+    match observe(&h) {
+        Ok(o) => out.push_str(&o),
+        Err(e) => return e,
+    }
+    out
 }
 
 
@@ -2037,7 +2425,12 @@ pub fn exec(t: &[&str]) -> String {
         ["parse", h] => exec_parse(h),
         ["pack", t, adds, reads] => exec_pack(t, adds, reads),
         ["packn", t, n, len, mode, reads] => exec_packn(t, n, len, mode, reads),
-        ["rix", ra, packs, files] if *ra == "0" || *ra == "1" => exec_rix(*ra == "1", packs, files),
+        ["rix", ra, packs, files] if *ra == "0" || *ra == "1" => exec_rix(*ra == "1", packs, files, false),
+        ["rixd", ra, packs, files] if *ra == "0" || *ra == "1" => exec_rix(*ra == "1", packs, files, true),
+        ["cflags", seed] => match seed.parse::<u64>() {
+            Ok(s) => exec_cflags(s),
+            _ => "bad-op".into(),
+        },
         ["pw", dl, tl, fail, adds] => {
             let f = if *fail == "-" { Some(None) } else { fail.parse::<usize>().ok().map(Some) };
             match (dl.parse::<u64>(), tl.parse::<u64>(), f) {
@@ -2054,7 +2447,16 @@ pub fn exec(t: &[&str]) -> String {
             _ => "bad-op".into(),
         },
         ["repair", variant, seed] => match seed.parse::<u64>() {
-            Ok(s) if ["all", "some", "none", "all-readall", "some-readall", "none-readall", "badhint", "fullpack", "fullpack-readall"].contains(variant) => exec_repair(variant, s),
+            Ok(s) => {
+                let v1 = variant.strip_prefix("hc-").unwrap_or(variant);
+                let v2 = v1.strip_prefix("dry-").unwrap_or(v1);
+                let plain = ["all", "some", "none", "all-readall", "some-readall", "none-readall", "badhint", "lostpack", "lostpack-readall"];
+                if plain.contains(&v2) || (v2 == *variant && ["fullpack", "fullpack-readall"].contains(variant)) {
+                    exec_repair(variant, s)
+                } else {
+                    "bad-op".into()
+                }
+            }
             _ => "bad-op".into(),
         },
         _ => "bad-op".into(),
